@@ -759,6 +759,77 @@ fn sqrt_nose(rng: &mut Rng) {
     emit_oracle_only("airfoil.sqrt_nose", &Tok::new(), &Tok::new(), &v);
 }
 
+/// A reflexed (S-shaped) camber: a tall narrow lobe on one side of the chord followed by a shallow wide lobe on the
+/// other, sized so that the shallow lobe has the larger AREA while the tall one reaches farther from the chord.  With
+/// `FaceOrient::Detect` the upper face is the one on the side of the camber point FARTHEST from the chord (that is
+/// what the detection is documented to use), in every frame, winding and start vertex.  Only that clause is judged.
+fn s_camber(rng: &mut Rng) {
+    use std::f64::consts::PI;
+    let len = *rng.pick(&[10.0, 40.0, 2.5]);
+    let w = rng.range(0.25, 0.35) * len;
+    let a = rng.range(0.05, 0.07) * len;
+    let b = rng.range(0.028, 0.034) * len;
+    // areas a·w/2 and b·(len − w)/2: keep the shallow lobe the larger one by a clear margin
+    if b * (len - w) < 1.15 * a * w {
+        return;
+    }
+    let tall_up = rng.chance(0.5);
+    let sgn = if tall_up { 1.0 } else { -1.0 };
+    let (r_end, r_max) = (rng.range(0.010, 0.014) * len, rng.range(0.030, 0.038) * len);
+    let y = |x: f64| sgn * if x < w { a * (PI * x / w).sin().powi(2) } else { -b * (PI * (x - w) / (len - w)).sin().powi(2) };
+    let dy = |x: f64| sgn * if x < w { a * (2.0 * PI * x / w).sin() * PI / w } else { -b * (2.0 * PI * (x - w) / (len - w)).sin() * PI / (len - w) };
+    let r = |x: f64| { let u = x / len; r_end + (r_max - r_end) * 4.0 * u * (1.0 - u) };
+    let drdx = |x: f64| { let u = x / len; (r_max - r_end) * 4.0 * (1.0 - 2.0 * u) / len };
+    let env = |x: f64, upper: bool| -> Point2 {
+        let sl = (1.0 + dy(x) * dy(x)).sqrt();
+        let t = Vector2::new(1.0, dy(x)) / sl;
+        let nrm = Vector2::new(-t.y, t.x);
+        let d = drdx(x) / sl; // dr/ds
+        Point2::new(x, y(x)) + (t * (-d) + nrm * ((1.0 - d * d).sqrt() * if upper { 1.0 } else { -1.0 })) * r(x)
+    };
+    let ns = *rng.pick(&[150usize, 300]);
+    let ncap = rng.int(16, 40) as usize;
+    let mut pts = vec![];
+    for k in 0..ns {
+        pts.push(env(len * k as f64 / ns as f64, false));
+    }
+    let d1 = drdx(len);
+    let th1 = ((1.0 - d1 * d1).sqrt()).atan2(-d1);
+    for k in 0..ncap {
+        let ang = -th1 + 2.0 * th1 * k as f64 / ncap as f64;
+        pts.push(Point2::new(len, 0.0) + Vector2::new(ang.cos(), ang.sin()) * r(len));
+    }
+    for k in 0..ns {
+        pts.push(env(len * (1.0 - k as f64 / ns as f64), true));
+    }
+    let d0 = drdx(0.0);
+    let th0 = ((1.0 - d0 * d0).sqrt()).atan2(-d0);
+    for k in 0..ncap {
+        let ang = th0 + (2.0 * PI - 2.0 * th0) * k as f64 / ncap as f64;
+        pts.push(Point2::origin() + Vector2::new(ang.cos(), ang.sin()) * r(0.0));
+    }
+    if pts.iter().any(|p| !(p.x.is_finite() && p.y.is_finite())) {
+        return;
+    }
+    let scale = len / 10.0;
+    let var = Variant { iso: Iso2::new(Vector2::new(rng.range(-50.0, 50.0), rng.range(-50.0, 50.0)), rng.range(-3.1, 3.1)), reversed: rng.chance(0.5), start: rng.below(pts.len()) };
+    let moved = variant_points(&pts, &var);
+    let core_tol = 1e-4 * scale;
+    let mut v = Verdict::new();
+    match analyze(moved, 1e-6 * scale, core_tol, Some(var.iso * Vector2::new(-1.0, 0.0)), Edge::Intersect, Edge::Intersect, None, scale, None) {
+        None => v.require(false, "airfoil.analysis_terminates", || format!("reflexed camber, length {len}: no result within 20 s")),
+        Some(Err(e)) => v.require(!e.starts_with("PANIC"), "airfoil.analysis_does_not_panic", || format!("reflexed camber: {e}")),
+        Some(Ok(out)) => {
+            if let (Some(u), Some(l)) = (&out.geo.upper, &out.geo.lower) {
+                let mean = |c: &Curve2| c.points().iter().fold(Vector2::zeros(), |acc, p| acc + p.coords) / c.points().len() as f64;
+                let want = var.iso * Vector2::new(0.0, sgn);
+                v.require((mean(u) - mean(l)).dot(&want) > 0.0, "airfoil.detected_upper_face_is_on_the_side_of_the_farthest_camber_point", || format!("reflexed camber: tall lobe {a:.3} over {w:.3} on the {} side, shallow lobe {b:.3} over {:.3} on the other; upper − lower = {:?}, expected along {want:?}", if tall_up { "+y" } else { "−y" }, len - w, mean(u) - mean(l)));
+            }
+        }
+    }
+    emit_oracle_only("airfoil.s_camber", &Tok::new(), &Tok::new(), &v);
+}
+
 pub fn run(rng: &mut Rng, n: usize, thorough: bool) {
     let mut k = 0;
     while k < n {
@@ -777,6 +848,7 @@ pub fn run(rng: &mut Rng, n: usize, thorough: bool) {
             }
             15 => {
                 case("airfoil.case", "c10.library_call_panics", || sqrt_nose(rng));
+                case("airfoil.case", "c10.library_call_panics", || s_camber(rng));
                 k += 10
             }
             _ => {
